@@ -149,7 +149,12 @@ func IsSkipWalkDirectory(info files.DirEntry) bool {
 // are passed to the callback, and where directories that should commonly  be ignored
 // (.git, node_modules, etc.) are skipped.
 func WalkFiles(root string, f func(path string) error) error {
-	return filepath.WalkDir(root, func(path string, info os.DirEntry, _ error) error { //nolint:wrapcheck
+	return filepath.WalkDir(root, func(path string, info os.DirEntry, err error) error { //nolint:wrapcheck
+		// when root itself cannot be read (e.g. it was removed), there is no entry to look at
+		if info == nil {
+			return err
+		}
+
 		if IsSkipWalkDirectory(info) {
 			return filepath.SkipDir
 		}
